@@ -29,12 +29,15 @@ theorem pixels_cumsum_eq_spec (data : List Int) (iw : List Nat) (h : data.length
     simp [this]
 
 example : pixelsCumsum [9, 1, 2, 7, 3, 4, 5] [0, 1, 2, 0, 1, 2, 1] = some [3, 7] := by decide
+example := pixels_cumsum_eq_spec [9, 1, 2, 7, 3, 4, 5] [0, 1, 2, 0, 1, 2, 1] rfl
 
 /-- One pixel per boundary code of the info wave. -/
 theorem pixels_count (data : List Int) (iw : List Nat) (h : data.length = iw.length) :
     (pixelsSpec data iw).length = iw.count 2 := by
   unfold pixelsSpec
   rw [spec_length, List.map_snd_zip (by omega)]
+
+example : (pixelsSpec [9, 1, 2, 7, 3] [0, 1, 2, 2, 1]).length = 2 := pixels_count _ _ rfl
 
 /-- `reconstruct_image_sum`, complete behaviour: size check, no boundary, otherwise the walk. -/
 theorem reconstructSum_spec (data : List Int) (iw : List Nat) :
@@ -76,6 +79,14 @@ theorem pixel_is_segment_sum (segs : List (List Sample)) (tail : List Sample)
 example : IsSegment [(4, 0), (1, 1), (5, 0), (2, 2)] := ⟨[(4, 0), (1, 1), (5, 0)], 2, rfl, by decide⟩
 example : pixelsSpecAux 0 ([[(4, 0), (1, 1), (5, 0), (2, 2)], [(7, 2)]].flatten ++ [(3, 1), (8, 0)])
     = [3, 7] := by decide
+example := pixel_is_segment_sum [[(4, 0), (1, 1), (5, 0), (2, 2)], [(7, 2)]] [(3, 1), (8, 0)]
+  (by intro seg h
+      rcases List.mem_cons.mp h with rfl | h
+      · exact ⟨[(4, 0), (1, 1), (5, 0)], 2, rfl, by decide⟩
+      · rcases List.mem_cons.mp h with rfl | h
+        · exact ⟨[], 7, rfl, by decide⟩
+        · cases h)
+  (by decide)
 
 /-- The segmentation always exists (so `pixel_is_segment_sum` speaks about every stream). -/
 theorem stream_decomposes (s : List Sample) :
@@ -99,6 +110,8 @@ theorem pixel_sum_conserved (body tail : List Sample)
 
 example : (pixelsSpecAux 0 ([(9, 0), (1, 1), (2, 2), (7, 0), (3, 2)] ++ [(5, 1), (6, 0)])).sum
     = usedSum [(9, 0), (1, 1), (2, 2), (7, 0), (3, 2)] := by decide
+example := pixel_sum_conserved [(9, 0), (1, 1), (2, 2), (7, 0), (3, 2)] [(5, 1), (6, 0)]
+  (Or.inr ⟨[(9, 0), (1, 1), (2, 2), (7, 0)], 3, rfl⟩) (by decide)
 
 /-- Zero padding, reshaping and transposing keep the total: kymograph. -/
 theorem image_total_kymo (P : Nat) (hP : 0 < P) (px : List Int) :
@@ -111,6 +124,7 @@ theorem image_total_kymo (P : Nat) (hP : 0 < P) (px : List Int) :
   rw [transposeN_sum P _ hsh.2, chunks_flatten P hP, padTo_sum]
 
 example : (kymoImage 3 [1, 2, 3, 4]).flatten.sum = 10 := by decide
+example := image_total_kymo 3 (by decide) [1, 2, 3, 4]
 
 theorem reshapeFrames_shape (L P : Nat) (hL : 0 < L) (hP : 0 < P) (px : List Int) :
     (reshapeFrames L P px).length = (px.length + L * P - 1) / (L * P) ∧
@@ -147,6 +161,7 @@ theorem image_total_scan (L P : Nat) (hL : 0 < L) (hP : 0 < P) (flip : Bool) (px
     exact sum_flatten_flatten_map _ _ (fun fr hfr => transposeN_sum P fr (hsh.2 fr hfr).2)
 
 example : (scanFrames 2 2 true [1, 2, 3, 4, 5]).flatten.flatten.sum = 15 := by decide
+example := image_total_scan 2 2 (by decide) (by decide) true [1, 2, 3, 4, 5]
 
 /-! ## 4. Placement and shape -/
 
@@ -161,6 +176,7 @@ theorem kymo_placement (P : Nat) (hP : 0 < P) (px : List Int) (r ℓ : Nat) (hr 
 
 example : at2 (kymoImage 3 [10, 11, 12, 13]) 0 1 = 13 ∧ at2 (kymoImage 3 [10, 11, 12, 13]) 1 1 = 0 := by
   decide
+example := kymo_placement 3 (by decide) [10, 11, 12, 13] 1 1 (by decide)
 
 /-- Kymograph shape: `P` rows, `⌈#pixels / P⌉` columns. -/
 theorem kymo_shape (P : Nat) (hP : 0 < P) (px : List Int) :
@@ -212,6 +228,8 @@ theorem scan_placement_fast_higher (L P : Nat) (hL : 0 < L) (hP : 0 < P) (px : L
 example : at3 (scanFrames 2 3 false [1, 2, 3, 4, 5, 6, 7]) 1 0 0 = 7 ∧
     at3 (scanFrames 2 3 true [1, 2, 3, 4, 5, 6, 7]) 0 2 1 = 6 ∧
     at3 (scanFrames 2 3 true [1, 2, 3, 4, 5, 6, 7]) 1 1 0 = 0 := by decide
+example := scan_placement_fast_lower 2 3 (by decide) (by decide) [1, 2, 3, 4, 5, 6, 7] 1 0 0 (by decide) (by decide)
+example := scan_placement_fast_higher 2 3 (by decide) (by decide) [1, 2, 3, 4, 5, 6, 7] 0 1 2 (by decide) (by decide)
 
 /-- Scan shape: `⌈#pixels / (L·P)⌉` frames of `L × P` (or `P × L` when the axes are swapped). -/
 theorem scan_shape (L P : Nat) (hL : 0 < L) (hP : 0 < P) (flip : Bool) (px : List Int) :
@@ -253,6 +271,7 @@ theorem scan_axes_meta (fa fp sa sp : Nat) (h : fa ≠ sa) :
 
 example : pixelsPerLine [(1, 5), (0, 7)] = 5 ∧ flipAxes [(1, 5), (0, 7)] = true ∧
     numPixels [(1, 5), (0, 7)] = [7, 5] := by decide
+example := scan_axes_meta 1 5 0 7 (by decide)
 
 /-- A kymograph has one axis: its pixel count is the number of pixels per line. -/
 theorem kymo_axes_meta (a p : Nat) : pixelsPerLine [(a, p)] = p := by
@@ -271,6 +290,7 @@ theorem num_frames_spec (mf : Nat) (iw : List Nat) (P L : Nat) (hPL : 0 < P * L)
   exact ceil_div_spec (iw.count 2) (P * L) hPL
 
 example : numFrames 0 [1, 2, 0, 2, 2, 1, 2, 2] 2 2 = 2 ∧ numFrames 7 [1, 2] 2 2 = 7 := by decide
+example := num_frames_spec 0 [1, 2, 0, 2, 2, 1, 2, 2] 2 2 (by decide)
 
 /-- The number of frames in the reconstructed image of a full-length channel is the number
     `reconstruct_num_frames` reads off the info wave. -/
@@ -279,6 +299,9 @@ theorem num_frames_image (data : List Int) (iw : List Nat) (h : data.length = iw
     (scanFrames L P flip (pixelsSpec data iw)).length = numFrames 0 iw P L := by
   rw [(scan_shape L P hL hP flip _).1, pixels_count data iw h]
   simp [numFrames, reconstructNumFrames, Nat.mul_comm]
+
+example : (scanFrames 2 2 true (pixelsSpec [1, 1, 1, 1, 1, 1] [2, 2, 0, 2, 2, 2])).length = numFrames 0 [2, 2, 0, 2, 2, 2] 2 2 :=
+  num_frames_image _ _ rfl 2 2 (by decide) (by decide) true
 
 /-! ## 5. Discarded samples, missing colours, truncated streams -/
 
@@ -293,6 +316,7 @@ theorem discard_irrelevant (iw : List Nat) (d d' : List Int) (h : d.length = iw.
 
 example : reconstructSum [5, 1, 2, 9] [0, 1, 2, 0] = reconstructSum [0, 1, 2, 0] [0, 1, 2, 0] := by
   decide
+example := discard_irrelevant [0, 1, 2, 0] [5, 1, 2, 9] [0, 1, 2, 0] rfl rfl (by decide)
 
 /-- A colour without data: every pixel is 0 and there are as many pixels as for a full-length
     channel (one per boundary), hence the same image shape (`kymo_shape`, `scan_shape` depend on the
@@ -309,6 +333,7 @@ theorem missing_colour_zero (iw : List Nat) (hb : iw.count 2 ≠ 0) :
   simp [hk, List.replicate_succ]
 
 example : channelPixels [0, 1, 2, 2, 0, 1] [] = .ok [0, 0] := by decide
+example := missing_colour_zero [0, 1, 2, 2, 0, 1] (by decide)
 
 /-- A full-length channel goes to the reconstruction unchanged. -/
 theorem full_channel (iw : List Nat) (chan : List Int) (h : chan.length = iw.length)
@@ -316,6 +341,9 @@ theorem full_channel (iw : List Nat) (chan : List Int) (h : chan.length = iw.len
   unfold channelPixels align
   rw [if_neg h0]
   simp [h]
+
+example : channelPixels [0, 1, 2] [7, 1, 2] = reconstructSum [7, 1, 2] [0, 1, 2] :=
+  full_channel _ _ rfl (by decide)
 
 /-- A photon stream that ends early: both streams are cut to the shared prefix, and the pixels are
     the leading pixels of the full reconstruction — those whose boundary lies in the shared span.
@@ -342,6 +370,7 @@ theorem truncated_prefix (iw : List Nat) (chan full : List Int) (h0 : chan.lengt
 
 example : pixelsSpec [1, 2, 3] ([1, 2, 1, 1, 2].take 3) = (pixelsSpec [1, 2, 3, 4, 5] [1, 2, 1, 1, 2]).take 1 := by
   decide
+example := truncated_prefix [1, 2, 1, 1, 2] [1, 2, 3] [1, 2, 3, 4, 5] (by decide) (by decide) rfl rfl
 
 /-! ## 5b. The functions the driver runs, end to end -/
 
@@ -365,6 +394,7 @@ theorem kymo_get_image (P : Nat) (hP : 0 < P) (iw : List Nat) (chan : List Int)
 
 example : kymoGetImage 2 [0, 1, 2, 2, 0, 1, 2] [9, 1, 2, 3, 9, 4, 5] = .ok ⟨[2, 2], [3, 9, 3, 0]⟩ := by
   decide
+example := kymo_get_image 2 (by decide) [0, 1, 2, 2, 0, 1, 2] [9, 1, 2, 3, 9, 4, 5] rfl (by decide) (by decide)
 
 /-- `Scan.get_image(colour)` for a full-length channel and two distinct scan axes with at least two
     pixels each: `F = ⌈#boundaries / (L·P)⌉` frames (the frame axis is squeezed away when `F = 1`),
@@ -420,6 +450,8 @@ theorem scan_get_image (fa P sa L : Nat) (hax : fa ≠ sa) (hP : 2 ≤ P) (hL : 
 
 example : scanGetImage [(1, 2), (0, 2)] [1, 2, 2, 0, 2, 2, 2] [1, 2, 3, 9, 4, 5, 6]
     = .ok ⟨[2, 2, 2], [3, 4, 3, 5, 6, 0, 0, 0]⟩ := by decide
+example := scan_get_image 1 2 0 2 (by decide) (by decide) (by decide) [1, 2, 2, 0, 2, 2, 2] [1, 2, 3, 9, 4, 5, 6]
+  rfl (by decide) (by decide)
 
 /-! ## 6. (ext) Cutting the stream at a pixel boundary cuts the pixel list at the same place -/
 
@@ -432,6 +464,7 @@ theorem segment_reconstruct (s₁ s₂ : List Sample) (h : s₁ = [] ∨ ∃ ini
 
 example : pixelsSpecAux 0 ([(1, 1), (2, 2)] ++ [(3, 1), (4, 2)])
     = pixelsSpecAux 0 [(1, 1), (2, 2)] ++ pixelsSpecAux 0 [(3, 1), (4, 2)] := by decide
+example := segment_reconstruct [(1, 1), (2, 2)] [(3, 1), (4, 2)] (Or.inr ⟨[(1, 1)], 2, rfl⟩)
 
 /-- More generally the cut may fall anywhere in the dead time that follows a boundary. -/
 theorem segment_reconstruct_dead (s₁ dead s₂ : List Sample)
@@ -451,5 +484,8 @@ theorem segment_reconstruct_dead (s₁ dead s₂ : List Sample)
     rw [this]; rfl
   rw [hc, carry_no_boundary dead 0 hnb, hu]
   rfl
+
+example := segment_reconstruct_dead [(1, 1), (2, 2)] [(9, 0), (8, 0)] [(3, 1), (4, 2)]
+  (Or.inr ⟨[(1, 1)], 2, rfl⟩) (by decide)
 
 end Verif.C02
